@@ -115,7 +115,18 @@ func (v *defaultValidator) generate(out *codegen.Emitter, format string) {
 
 	out.Printlnf(`if v, ok := %s[%q]; !ok || v == nil {`, varNameRawMap, v.jsonName)
 	out.Indent(1)
-	out.Printlnf(`%s = %s`, getPlainName(v.fieldName), defaultValue)
+
+	if pt, ok := v.defaultValueType.(*codegen.PointerType); ok {
+		// A nullable field is a pointer: the literal needs a variable of the pointed-to type to point at.
+		elem := codegen.NewEmitter(out.MaxLineLength())
+		pt.Type.Generate(elem)
+
+		out.Printlnf(`defaultValue := %s(%s)`, elem.String(), defaultValue)
+		out.Printlnf(`%s = &defaultValue`, getPlainName(v.fieldName))
+	} else {
+		out.Printlnf(`%s = %s`, getPlainName(v.fieldName), defaultValue)
+	}
+
 	out.Indent(-1)
 	out.Printlnf("}")
 }
